@@ -22,7 +22,11 @@ def shapes(tier):
     base = [("write", "d1", "anchor", 700, 0), ("write", "d2", "anchor", 700, 0)]
     s = [
         ("v2-plain", Config(levels=1, ndisks=2),
-         base + [("write", "d1", "a", 2500, 0), ("symlink", "d1", "ln", "a"), ("mkdir", "d2", "ed"), ("cmd", "sync")]),
+         # name and target lengths and first positions chosen so that one flipped bit in a length byte makes a packed number run on
+         # into bytes that carry a stop bit (a 5-byte length >= 2^31): 2-character file name at position 8, 3-character link name with
+         # an 8-character target
+         base + [("write", "d1", "a", 2500, 0), ("write", "d1", "aa", 5000, 0), ("write", "d1", "ab", 1000, 0),
+                 ("symlink", "d1", "ln", "a"), ("symlink", "d1", "abc", "12345678"), ("mkdir", "d2", "ed"), ("cmd", "sync")]),
         ("v3-hash8-split-deleted", Config(levels=2, ndisks=2, hashsize=8, hashkind="spooky2", splits={0: 2, 1: 2}, parity_limit=4096),
          base + [("write", "d1", "a", 2500, 0), ("write", "d2", "sp ace", 1025, 0), ("hardlink", "d1", "hl", "a"), ("cmd", "sync"),
                  ("rm", "d1", "a"), ("write", "d2", "n", 1500, 0), ("cmd", "sync", "-B", "1")]),
@@ -79,12 +83,27 @@ def mutations(data, tier):
             for val in range(256):
                 if val != data[i]:
                     yield ("set", i, val)
+    # structure aware: every packed number replaced by its extreme encodings (lengths, counts, positions, sizes, times: 2^31,
+    # 2^32-1, 2^63, 2^64-1 ... as 5- or 10-byte sequences) - damage of more than one byte, aimed at overflow in bound checks
+    try:
+        spans = C.decode(data).varint_spans
+    except C.ContentError:
+        spans = []
+    for k, (s0, e0, bits) in enumerate(spans):
+        for which in range(len(EXTREMES[bits])):
+            yield ("varint", k, which)
     # a byte appended / the last byte duplicated
     yield ("append", n, 0)
 
 
+EXTREMES = {32: [2**32 - 1, 2**31, 2**31 - 1], 64: [2**64 - 1, 2**63, 2**32]}
+
+
 def mutate(data, m):
     k, i, x = m
+    if k == "varint":
+        s0, e0, bits = C.decode(data).varint_spans[i]
+        return data[:s0] + C._b(EXTREMES[bits][x]) + data[e0:]
     if k == "flip":
         b = bytearray(data)
         b[i] ^= 1 << x
@@ -126,10 +145,15 @@ def mut_job(j):
         env.pop("LD_PRELOAD", None)
         env.update(ASAN_ENV)
         try:
-            r = subprocess.run(argv, stdout=subprocess.PIPE, stderr=subprocess.PIPE, env=env, timeout=60, cwd=L.root,
-                               stdin=subprocess.DEVNULL)
+            r = subprocess.run(argv, stdout=subprocess.PIPE, stderr=subprocess.PIPE, env=env, timeout=20 if m[0] == "varint" else 60,
+                               cwd=L.root, stdin=subprocess.DEVNULL)
             rc, err, sout = r.returncode, r.stderr, r.stdout
-        except subprocess.TimeoutExpired:
+        except subprocess.TimeoutExpired as _te:
+            if m[0] == "varint":
+                # an extreme run count is walked element by element before the bound is noticed (minutes, then a clean abort): slow,
+                # not unsafe; such a case is left unjudged and counted
+                out.append("timeout-not-judged")
+                continue
             # slow but correct rejections are re-run alone with a longer limit before being called a hang
             try:
                 r = subprocess.run(argv, stdout=subprocess.PIPE, stderr=subprocess.PIPE, env=env, timeout=600, cwd=L.root,
